@@ -33,6 +33,11 @@ func IOCodec(rwc io.ReadWriteCloser) *jsonCodec {
 type jsonCodec struct {
 	rwc        io.ReadWriteCloser
 	remoteAddr string
+
+	// decoder is kept across messages: a json.Decoder reads ahead of the
+	// value it returns, so whatever follows a message in the same read must
+	// stay buffered for the next ReadMessage.
+	decoder *json.Decoder
 }
 
 func (codec *jsonCodec) RemoteAddr() string {
@@ -40,8 +45,11 @@ func (codec *jsonCodec) RemoteAddr() string {
 }
 
 func (codec *jsonCodec) ReadMessage() (*Message, error) {
+	if codec.decoder == nil {
+		codec.decoder = json.NewDecoder(codec.rwc)
+	}
 	var msg Message
-	err := json.NewDecoder(codec.rwc).Decode(&msg)
+	err := codec.decoder.Decode(&msg)
 	return &msg, err
 }
 
